@@ -88,11 +88,13 @@ def install():
 
     def trace_op(self, frame, codeobj, codenum):
         item = frame_stack_read(frame, -2)
-        if isinstance(item, CrossHairValue):
-            container = frame_stack_read(frame, -1)
-            if type(container) is frozenset:
-                frame_stack_write(frame, -1, _OrSet(container))
-                return
+        container = frame_stack_read(frame, -1)
+        if type(container) is frozenset and (isinstance(item, CrossHairValue) or type(item) in (tuple, list)):
+            # a tuple (range value) may hold symbolic cells: hashing it would realise them
+            frame_stack_write(frame, -1, _OrSet(container))
+            return
+        if not isinstance(item, CrossHairValue):
+            return
         return _orig(self, frame, codeobj, codenum)
     oi.ContainmentInterceptor.trace_op = trace_op
 
